@@ -58,7 +58,7 @@ Route(id, r) == routes' = Append(routes, {r})
 \* an event without a trace id: straight upstream, unsampled
 RecvPlain(listener, cr) ==
   /\ nextId <= MaxEvents
-  /\ upQ' = upQ \cup {Rec(nextId, FALSE, FALSE, cr)}
+  /\ upQ' = upQ \cup {Rec(nextId, FALSE, FALSE, Max(cr, 1))}   \* an absent / zero rate reads as 1
   /\ Route(nextId, "upstream")
   /\ nextId' = nextId + 1
   /\ act' = [name |-> "RecvPlain", listener |-> listener, id |-> nextId, crate |-> cr]
@@ -96,7 +96,7 @@ RecvSpan(listener, t, cr) ==
                           /\ Route(id, "upstream")
                      ELSE /\ peerQ' = peerQ /\ Route(id, "upstream")
      ELSE IF t \in Foreign
-     THEN /\ peerQ' = peerQ \cup {Rec(id, FALSE, FALSE, cr)}     \* forwarded unchanged
+     THEN /\ peerQ' = peerQ \cup {Rec(id, FALSE, FALSE, crr)}    \* forwarded unchanged
           /\ Route(id, "peer")
           /\ UNCHANGED <<upQ, buf, dec, drate>>
      ELSE \* the collector: late span of a remembered decision, else buffered
